@@ -83,6 +83,16 @@ Fixpoint dec_aux (fuel n : nat) (acc : string) : string :=
   end.
 Definition dec (n : nat) : string := dec_aux (S n) n "".
 
+(** decimal rendering of integers of any size (binary arithmetic; 60 digits of fuel) *)
+Fixpoint decZ_aux (fuel : nat) (n : Z) (acc : string) : string :=
+  match fuel with
+  | 0 => acc
+  | S f => let acc' := digit_of (Z.to_nat (n mod 10)) ^^ acc in
+           if Z.eqb (n / 10) 0 then acc' else decZ_aux f (n / 10) acc'
+  end.
+Definition decZ (n : Z) : string :=
+  if Z.ltb n 0 then "-" ^^ decZ_aux 60 (Z.opp n) "" else decZ_aux 60 n "".
+
 Definition is_nil {A} (l : list A) : bool := match l with [] => true | _ => false end.
 
 (** Small token constructors. *)
